@@ -21,6 +21,11 @@ Domain restrictions enforced by construction (the property's quantifier):
     now and then one level down inside a regular package, where importlib does see a namespace
     package: the check's namespace filter takes those names out, they only have to do no harm.
     An empty directory is the key ``'dir/'``,
+  * *odd names*: modules, packages and sub-packages called like soft keywords (match, type, case, _),
+    with a keyword as prefix/suffix (classes, is_, not_), dunder-style (_private, __x, __future__2),
+    like builtins (list, id), single letters, 60+ characters, and HARD keywords (class.py: on disk and
+    importable through importlib, but not writable in an import statement -- never a required
+    proposal and never put into a generated import statement),
   * *level decoys*: one module name placed in a deep package, in each of its ancestors and at top
     level, so that a relative import resolved at the wrong level lands on another existing file;
     every .py file ends with a line ``MARK_r<root>_<path> = 1``, a name no other file defines,
@@ -33,6 +38,7 @@ All randomness comes from the ``random.Random`` passed in.
 """
 import importlib.machinery
 import itertools
+import keyword
 import os
 import py_compile
 import shutil
@@ -218,6 +224,8 @@ def _gen_tree(rng, compiled=None):
             _add_bare_dir(rng, roots, bare, compiled if compiled is not None else COMPILED)
     if rng.random() < 0.45:
         _add_level_decoys(rng, roots, bare)
+    if rng.random() < 0.55:
+        _add_odd_names(rng, roots, bare)
     for i, files in enumerate(roots):
         for rel in files:
             if rel.endswith('.py'):
@@ -226,6 +234,63 @@ def _gen_tree(rng, compiled=None):
     if bare:
         tree['bare'] = bare
     return tree
+
+
+ODD_NAMES = {
+    'soft-keyword': ['match', 'type', 'case', '_'],
+    'keyword-affix': ['classes', 'is_', 'not_', 'async_', 'def_', 'inner_in', 'importlib2', 'lambda_', '_class', 'subclass',
+                      'None_', 'in_'],
+    'dunder-style': ['__future__2', '_private', '__x', '__main2__', '___'],
+    'builtin-name': ['list', 'id', 'print', 'len'],
+    'single-letter': ['a', 'x', 'q', 'Z'],
+    'long': ['very_long_module_name_' + 'x' * 44],
+    'hard-keyword': ['class', 'in', 'not', 'async', 'None', 'def'],
+}
+_ODD_OF = {n: k for k, v in ODD_NAMES.items() for n in v}
+
+
+def name_category(name):
+    """which odd-name family a module name belongs to ('plain' for the ordinary pools)"""
+    if name in _ODD_OF:
+        return _ODD_OF[name]
+    if keyword.iskeyword(name):
+        return 'hard-keyword'
+    if name in getattr(keyword, 'softkwlist', ()):
+        return 'soft-keyword'
+    return 'plain'
+
+
+def has_hard_keyword(dotted):
+    """a dotted (possibly relative) name one of whose components cannot be written in an import statement"""
+    return any(keyword.iskeyword(c) for c in dotted.strip('.').split('.') if c)
+
+
+def _add_odd_names(rng, roots, bare):
+    """1-3 oddly named modules / packages / sub-packages, at top level or inside existing packages."""
+    cats = ['soft-keyword'] * 4 + ['keyword-affix'] * 2 + ['dunder-style', 'builtin-name', 'single-letter', 'long',
+                                                          'hard-keyword', 'hard-keyword']
+    for _ in range(rng.choice((1, 2, 2, 3))):
+        total = sum(len(f) for f in roots)
+        if total >= MAX_FILES - 1:
+            return
+        name = rng.choice(ODD_NAMES[rng.choice(cats)])
+        i = rng.randrange(len(roots))
+        files = roots[i]
+        skip = [b for k, b in bare if k == i]
+        pkdirs = sorted({rel.rsplit('/', 1)[0] for rel in files if rel.endswith('/__init__.py')
+                         and not any(rel.startswith(b + '/') for b in skip)})
+        d = '' if not pkdirs or rng.random() < 0.4 else rng.choice(pkdirs)
+        if name in _stems_in(files, d) or (not d and name in [b for b in skip]):
+            continue
+        pre = d + '/' if d else ''
+        depth = d.count('/') + 1 if d else 0
+        dotted = (pre + name).replace('/', '.')
+        if rng.random() < 0.45 and depth < MAX_DEPTH and total <= MAX_FILES - 3:
+            files[pre + name + '/__init__.py'] = 'NAME = %r\npkg_attr = 1\n' % dotted
+            child = rng.choice(SUB_POOL + ODD_NAMES['soft-keyword'] + ['classes', '_private', 'class'])
+            files[pre + name + '/' + child + '.py'] = 'NAME = %r\nattr_%s = 1\n' % (dotted + '.' + child, child.strip('_'))
+        else:
+            files[pre + name + '.py'] = 'NAME = %r\nattr_%s = 1\n' % (dotted, name.strip('_'))
 
 
 def marker_of(root, rel):
@@ -697,6 +762,10 @@ def use_queries(rng, tree, root, rel, limits=(14, 8, 8, 6)):
                       'use': n + '.zq_absent'})
         a_as.append({'form': 'from-abs-as', 'kind': 'from', 'module': n, 'name': 'zq_absent', 'alias': 'd', 'use': 'd'})
         a_as.append({'form': 'from-abs-as', 'kind': 'from', 'module': n, 'name': 'NAME', 'alias': 'd', 'use': 'd'})
+    # a hard keyword cannot be written in an import statement
+    for group in (a_dots, a_pkg, a_imp, a_as):
+        group[:] = [q for q in group if not has_hard_keyword(q['module']) and not (q['name'] and keyword.iskeyword(q['name']))
+                    and not has_hard_keyword(q['use'])]
     out = []
     # level >= 2 first: that is where a collapsed level shows
     high = [q for q in a_dots if len(q['module']) >= 2]
